@@ -42,7 +42,7 @@ def main():
     t.add_argument("--mutants", action="store_true")
     t.add_argument("--repo", default="/repo")
     x = sub.add_parser("extra")
-    x.add_argument("what", choices=["vi", "suite"])
+    x.add_argument("what", choices=["vi", "suite", "vir"])
     x.add_argument("--repo", default="/repo")
     r = sub.add_parser("replay")
     r.add_argument("file")
@@ -61,9 +61,9 @@ def main():
             args.repo = os.path.abspath(args.repo)
             return selftest.run(args)
         if args.cmd == "extra":
-            from checks import extra_vi, extra_suite
+            mod = importlib.import_module("checks.extra_" + args.what)
             args.repo = os.path.abspath(args.repo)
-            return (extra_vi if args.what == "vi" else extra_suite).run(args)
+            return mod.run(args)
         if args.cmd == "replay":
             with open(args.file) as f:
                 rep = json.load(f)
